@@ -253,7 +253,26 @@ func (e *c03Exec) checkResult(in *inputs, where string, res system.Collection) {
 			e.v.Stats.probe("result-node-identity-checked")
 			continue
 		}
+		if in.callerMsgs[m] {
+			continue // the caller's own object, handed in through an environment value
+		}
 		d := m.ProtoReflect().Descriptor()
+		// a message the library made for this result (a reference string, a copy of a contained
+		// resource) must not reach into the input: whoever edits "its" result would edit the input
+		shared := ""
+		walkMessages(m.ProtoReflect(), func(x protoreflect.Message) {
+			if x.Interface() == m || shared != "" {
+				return
+			}
+			if _, isNode := in.nodeIdx[x.Interface()]; isNode {
+				shared = string(x.Descriptor().Name())
+			}
+		})
+		e.v.Stats.probe("fresh-result-checked")
+		if shared != "" {
+			e.violate("result-identity", "fresh-result-shares-input", fmt.Sprintf("%s: result item %d (%s) is not an element of the input, but it contains the input's own %s element: editing the result edits the input", where, i, d.Name(), shared))
+			return
+		}
 		if d.FullName() == "google.fhir.r4.core.String" {
 			continue // reference strings are synthesised (documented)
 		}
